@@ -179,6 +179,7 @@ func main() {
 			{"confirm-bad-yes-good-no", st("confirm", []string{"!!!", "Tm8"}, []byte("p")), "confirm"},
 			{"unknown", st("frobnicate", []string{"x"}, []byte("y")), ""},
 			{"grease", st("grease-1a2b", nil, nil), ""},
+			{"unknown-5000-byte-line", st("frobnicate", []string{strings.Repeat("x", 5000)}, []byte("y")), ""},
 			{"framing-noncanonical-body", "-> msg\nQR\n", ""},
 			{"framing-no-short-line", "-> msg\n" + full + "\n", ""},
 			{"framing-65-columns", "-> msg\n" + full + "A\n", ""},
@@ -192,6 +193,8 @@ func main() {
 			{"recipient-stanza-index-1", st("recipient-stanza", []string{"1", "sim"}, nil), ""},
 			{"recipient-stanza-index-x", st("recipient-stanza", []string{"x", "sim"}, nil), ""},
 			{"recipient-stanza-no-type", st("recipient-stanza", []string{"0"}, nil), ""},
+			{"recipient-stanza-5000-byte-line", st("recipient-stanza", []string{"0", "sim3", strings.Repeat("a", 5000)}, lab.Plain(20, 9)), ""},
+			{"labels-900", st("labels", manyLabels(900), nil), ""},
 			{"labels-none", st("labels", nil, nil), ""},
 			{"labels-a", st("labels", []string{"a"}, nil), ""},
 			{"labels-b-a", st("labels", []string{"b", "a"}, nil), ""},
@@ -295,7 +298,7 @@ func main() {
 
 		runMachine := func(machine string, alpha []msg, depth int) {
 			c.Part(machine)
-			c.Bound("%s state machine: every conversation of <= %d plugin messages over %d message kinds (each command valid and malformed, commands of the other machine, unknown, grease, 5 framing errors, done), each followed by end of stream; conversations containing a UI command under every answer of that callback (absent, error, values); plus a plugin that exits before reading anything", machine, depth, len(alpha))
+			c.Bound("%s state machine: every conversation of <= %d plugin messages over %d message kinds (each command valid and malformed, commands of the other machine, unknown, grease, opening lines longer than 4 KiB, 5 framing errors, done), each followed by end of stream; conversations containing a UI command under every answer of that callback (absent, error, values); plus a plugin that exits before reading anything", machine, depth, len(alpha))
 			var rec func(seq []int)
 			exec1 := func(seq []int) {
 				var send strings.Builder
@@ -494,4 +497,12 @@ func sameLabels(got, want []string, has bool) bool {
 		}
 	}
 	return true
+}
+
+func manyLabels(n int) []string {
+	var l []string
+	for i := 0; i < n; i++ {
+		l = append(l, fmt.Sprintf("l%04d", i))
+	}
+	return l
 }
